@@ -83,7 +83,44 @@ def sched_program(rng, provider, ternary):
         rules += [Rule([Head('rk_b', [V('k'), V('x'), V('y')])], [Clause('q3', [AVar('k')]), Clause('r', [AVar('k'), AVar('x'), AVar('y')])]),
                   Rule([Head('rk_c', [V('x'), V('y')])], [Clause('r', [AExpr(K(kc)), AVar('x'), AVar('y')])]),
                   Rule([Head('rk_f', [V('k'), V('x'), V('y')])], [Clause('q', [AVar('x')]), Clause('r', [AVar('k'), AVar('x'), AVar('y')])])]
+    # two-clause readers `pS(cols in S), r(all cols)` for every non-empty subset S of r's columns: a simple join, so that at run
+    # time either side may drive the loop (r is then scanned through iter_all of its index on S); the probe relations come in sizes
+    # on both sides of that decision. In a later stratum (total only) and, for one S per program, inside the recursive stratum
+    # (delta versions), feeding the tagged relation back.
+    cols = (['k'] if ternary else []) + ['x', 'y']
+    subsets = [[c for i, c in enumerate(cols) if m >> i & 1] for m in range(1, 1 << len(cols))]
+    probe_rels = []
+    for S in subsets:
+        tag = ''.join(S)
+        rels += [Rel('p_' + tag, [I] * len(S)), Rel('ps_' + tag, [I] * len(cols))]
+        probe_rels.append(('p_' + tag, S))
+        rules.append(Rule([Head('ps_' + tag, [V(c) for c in cols])], [Clause('p_' + tag, [AVar(c) for c in S]), Clause('r', [AVar(c) for c in cols])]))
+    S = rng.choice(subsets)
+    tag = ''.join(S)
+    rels += [Rel('pr', [I] * len(S)), Rel('psr', [I] * len(cols))]
+    probe_rels.append(('pr', S))
+    rules.append(Rule([Head('psr', [V(c) for c in cols])], [Clause('pr', [AVar(c) for c in S]), Clause('r', [AVar(c) for c in cols])]))
+    rules.append(Rule([Head('r', kv + [V('y'), V('x')])], [Clause('psr', [AVar(c) for c in cols]), Clause('q3', [AVar('y')])]))
     prog = Program(rels, rules)
+
+    def probe_rows(rng, n, nk):
+        rows = []
+        for name, S in probe_rels:
+            space = [()]
+            for c in S:
+                space = [t + (v,) for t in space for v in range(nk if c == 'k' else n)]
+            mode = rng.choice(['tiny', 'all', 'big', 'half'])
+            if mode == 'tiny':
+                pick = rng.sample(space, min(len(space), rng.randrange(0, 3)))
+            elif mode == 'half':
+                pick = rng.sample(space, len(space) // 2)
+            else:
+                pick = list(space)
+            if mode == 'big':
+                # rows that can never join (values outside the domain) make the probe relation larger than any estimate of r
+                pick += [tuple(100 + j for _ in S) for j in range(rng.choice([20, 60, 200]))]
+            rows += [(name, t) for t in pick]
+        return rows
 
     def inputs(rng):
         n = rng.choice([3, 4, 5, 6])                 # element domain
@@ -127,10 +164,11 @@ def sched_program(rng, provider, ternary):
         for qn in ('q', 'q2', 'q3'):
             for x in rng.sample(dom, rng.randrange(0, n + 1)):
                 rows.append((qn, (x,)))
+        rows += probe_rows(rng, n, nk)
         rows = list(dict.fromkeys(rows))
         rng.shuffle(rows)
         return rows, {'shape': shape, 'mode': mode, 'keys': nk}
-    return prog, ['seed', 'feed', 'q', 'q2', 'q3'], inputs
+    return prog, ['seed', 'feed', 'q', 'q2', 'q3'] + [nm for nm, _ in probe_rels], inputs
 
 
 def random_program(rng, provider, ternary_ok=True):
